@@ -284,6 +284,8 @@ def floor_of(ex, x):
     f = z3.Int(uid("floor"))
     ex.ctx.add_hyp(z3.And(z3.ToReal(f) <= x, x < z3.ToReal(f) + 1), [str(f)])
     cache[key] = (f, x)      # keep x alive so that its id is not reused
+    for x0, n in ex.ctx.__dict__.get("float_int_eq", {}).get(key, []):
+        ex.ctx.add_hyp(implies(x == z3.ToReal(n), f == n), [str(f)])      # see Executor.cmp1
     return f
 
 
